@@ -18,7 +18,10 @@ EXPLANATION = (
     "this, unpickling or deep-copying any tree containing a symlink node recurses without bound on the not yet "
     "initialised instance. P2 the link fields are ordinary instance attributes/slots: no property, descriptor, "
     "__getattribute__, __getstate__/__reduce__/__deepcopy__ in the node classes intercepts them, and "
-    "LightNodeMixin.__slots__ lists them, so default pickling/copying captures exactly the links. Isomorphism, "
+    "LightNodeMixin.__slots__ lists them and the dict-based node classes declare no __slots__, so default "
+    "pickling/copying (and a __getstate__ copying self.__dict__) captures exactly the links. P3 no id() value is stored in "
+    "state that outlives a call of a node class (only in containers created by that call): ids name the original "
+    "objects after a copy. Isomorphism, "
     "independence and protocol coverage of the copy are NOT decided (behaviour of pickle/copy's C code)."
 )
 ASSUMPTIONS = ["pickle/copy probe __setstate__/__reduce_ex__/__deepcopy__ via getattr on an instance whose __dict__ is still empty",
@@ -101,6 +104,54 @@ def run(ctx):
                 ctx.viol("P2", None, val, "link field %s is a class-level attribute/descriptor" % aname, construct="%s.%s class attribute" % (m, aname),
                          file=cls.module.relpath, qual=m, line=val.lineno)
         ctx.inst("P2", "%s %s" % (cls.module.relpath, m), "members scanned: %d" % len(cls.members), "no pickle/copy hook, link fields are plain storage")
+    # the dict-based node classes keep their links in the instance __dict__: a __slots__ declaration there moves the
+    # links out of reach of the documented `__getstate__` idiom (a copy of self.__dict__) and of pickle protocols 0/1
+    for m in ("NodeMixin", "SymlinkNodeMixin", "SymlinkNode", "Node", "AnyNode"):
+        cls = p.cls(m)
+        if "__slots__" in cls.assigns:
+            val = cls.assigns["__slots__"]
+            ctx.viol("P2", None, val, "%s declares __slots__: its link fields leave the instance __dict__, so a subclass __getstate__ "
+                     "that copies self.__dict__ loses parent/children and pickle protocols 0/1 refuse the instance" % m,
+                     construct="%s.__slots__" % m, file=cls.module.relpath, qual=m, line=val.lineno)
+        else:
+            ctx.inst("P2", "%s %s" % (cls.module.relpath, m), "no __slots__", "links live in the instance __dict__")
+    # ---- P3 nothing derived from object identity is kept in a node's persistent state: an id() stored in (or used as
+    # a key of) a container that outlives the call refers to the ORIGINAL objects after a copy
+    from .common import resolve_local
+    for m in T.MIXINS + ("SymlinkNodeMixin", "SymlinkNode", "Node", "AnyNode"):
+        cls = p.cls(m)
+        for f in cls.funcs():
+            ft = typer.results.get(f) or typer.analyze(f)
+            for node in walk_own(f.node):
+                cont, vals = None, []
+                if isinstance(node, ast.Subscript) and isinstance(node.ctx, (ast.Store, ast.Del)):
+                    cont, vals = node.value, [node.slice]
+                    if isinstance(node.ctx, ast.Store):
+                        par = [a for a in walk_own(f.node) if isinstance(a, ast.Assign) and any(t is node for t in a.targets)]
+                        vals += [a.value for a in par]
+                elif isinstance(node, ast.Call) and isinstance(node.func, ast.Attribute) and node.func.attr in (
+                        "append", "add", "insert", "setdefault", "extend", "update"):
+                    cont, vals = node.func.value, list(node.args)
+                elif isinstance(node, ast.Assign) and any(isinstance(t, ast.Attribute) for t in node.targets):
+                    cont, vals = None, [node.value]
+                    if not _has_id(ft, node.value):
+                        continue
+                    ctx.viol("P3", f, node, "an id() value is stored in an instance attribute: after pickling/deep-copying it names "
+                             "the original object, not the copy")
+                    continue
+                if cont is None:
+                    continue
+                if not any(_has_id(ft, v) for v in vals):
+                    continue
+                base = resolve_local(f, cont) if isinstance(cont, ast.Name) else cont
+                local = isinstance(base, (ast.Set, ast.Dict, ast.List)) or (
+                    isinstance(base, ast.Call) and isinstance(base.func, ast.Name) and base.func.id in ("set", "dict", "list"))
+                if local:
+                    ctx.inst("P3", f, node, "id() value kept in a container local to the call")
+                else:
+                    ctx.viol("P3", f, node, "an id() value is stored in `%s`, which is not a container created by this call: if it "
+                             "outlives the call (link field, instance attribute) a pickled/deep-copied tree carries the ids of the "
+                             "original nodes and breaks on the first change" % norm(cont))
     lm = p.cls("LightNodeMixin")
     sl = lm.assigns.get("__slots__")
     try:
@@ -113,4 +164,17 @@ def run(ctx):
         ctx.viol("P2", None, sl, "LightNodeMixin.__slots__ does not list both link fields", construct="LightNodeMixin.__slots__",
                  file=lm.module.relpath, qual="LightNodeMixin", line=getattr(sl, "lineno", lm.node.lineno))
     ctx.floor("P1", 3)
-    ctx.floor("P2", 7)
+    ctx.floor("P2", 12)
+    ctx.floor("P3", 2)
+
+
+def _has_id(ft, e):
+    """the expression is (or directly contains) an id() value"""
+    t = ft.type_of(e)
+    if t is not None and "id" in t:
+        return True
+    if isinstance(e, (ast.Tuple, ast.List, ast.Set)):
+        return any(_has_id(ft, x) for x in e.elts)
+    if isinstance(e, ast.Dict):
+        return any(k is not None and _has_id(ft, k) for k in e.keys) or any(_has_id(ft, v) for v in e.values)
+    return False
